@@ -173,7 +173,7 @@ class Session:
         return {"id": tid, "init": [ent(e) for e in self.init], "ops": self.ops, "rr": rr}
 
 
-def replay(tid, ops):
+def replay_history(tid, ops):
     s = Session()
     for o in ops:
         atoms = [tuple(a) for a in o["a"]]
@@ -242,7 +242,7 @@ def _work(job):
     try:
         with time_limit(LIMIT):
             if kind == "replay":
-                return ("trace", replay(tid, payload))
+                return ("trace", replay_history(tid, payload))
             return ("trace", random_history(tid, payload[0], payload[1]))
     except ImplTimeout:
         return ("timeout", {"id": tid, "job": payload})
@@ -328,10 +328,11 @@ def judge(ctx, label, traces, stats):
             raise MachineryError("trace judge consumed %d states, expected %d" % (res.distinct, expected))
         ctx.add_tlc("trace-%s-%d" % (label, c0), res)
         ctx.cov["traces_validated_against_impl"] += len(part)
-        for p in res.printed:
-            if p and p[0] == "DEAD":
+        # TLC's workers print in any order: sorted, so that the witness kept per signature is deterministic
+        for p in sorted((p for p in res.printed if p and p[0] in ("DEAD", "FAIL")), key=lambda p: (p[0], p[1], p[3] if len(p) > 3 else 0, str(p[2:]))):
+            if p[0] == "DEAD":
                 stats["dead"].add(p[1])
-            if p and p[0] == "FAIL":
+            if p[0] == "FAIL":
                 t = byid[p[1]]
                 clause, step = p[2], p[3]
                 k = t["ops"][step - 1]["k"] if step >= 1 else "init"
@@ -344,21 +345,42 @@ def judge(ctx, label, traces, stats):
 
 
 def account(traces, stats):
+    """evidence counters and vacuity features (shapes of the calls made; no judgement)"""
+    feats = stats["features"]
     for t in traces:
         ops = t["ops"]
         stats["calls"] += len(ops)
-        texts = set()
+        texts = {}
         rep = False
-        for o in ops:
-            key = (o["k"], tuple(tuple(a) for a in o["a"]))
+        for i, o in enumerate(ops):
+            k = o["k"]
+            key = (k, tuple(tuple(a) for a in o["a"]))
+            exc = o["r"][0] == "exc"
             if key in texts:
                 rep = True
-            texts.add(key)
-            stats["ctors"].add(o["k"])
-            if o["r"][0] == "exc":
+                feats.add("repeat-rejected" if exc or texts[key] else "repeat-accepted")
+            texts[key] = exc
+            stats["ctors"].add(k)
+            if k in NARY and len(o["a"]) < 2:
+                feats.add("%s/%d" % (k, len(o["a"])))
+            if k in ("GE", "GT"):
+                feats.add(k)
+            if k == "Not" and o["a"][0][0] == "r" and ops[o["a"][0][1] - 1]["k"] == "Not":
+                feats.add("Not(Not)")
+            for a in o["a"]:
+                if a[0] == "v":
+                    feats.add("lit:" + a[2])
+            if exc:
                 stats["raised"] += 1
         if rep or any(o["r"][0] == "exc" for o in ops):
             stats["nontrivial"] += 1
+
+
+REQUIRED_FEATURES = (
+    ["repeat-accepted", "repeat-rejected", "GE", "GT", "Not(Not)"]
+    + ["%s/%d" % (k, n) for k in NARY for n in (0, 1)]
+    + ["lit:" + v for v in ("i2", "f2.0", "s2", "q4/2", "q1/2", "f0.5")]
+)
 
 
 def t1(ctx):
@@ -366,12 +388,15 @@ def t1(ctx):
     d = ctx.sub("t1")
     if q:
         cfgs = [
-            dict(leaves=["b", "c", "x"], lits=["f2.0", "q1/2"], ctors=["And", "Not", "Plus", "GE", "LE", "Equals", "FluentExp"], maxar=2, maxops=3),
+            dict(leaves=["b", "x"], lits=["f2.0"], ctors=["And", "Not", "GE", "FluentExp"], maxar=2, maxops=3),
+            dict(leaves=["b", "x"], lits=["i2", "q4/2", "q1/2"], ctors=["Or", "Iff", "Plus", "Times", "LT", "Equals", "FluentExp", "TRUE"], maxar=2, maxops=2),
         ]
     else:
         cfgs = [
-            dict(leaves=["b", "c", "x"], lits=["f2.0", "q1/2"], ctors=["And", "Not", "Plus", "GE", "LE", "Equals", "FluentExp"], maxar=3, maxops=4),
-            dict(leaves=["b", "x", "y"], lits=["i2", "q4/2", "s0.5"], ctors=["Or", "Not", "Iff", "Times", "Div", "GT", "LT", "FluentExp", "TRUE"], maxar=2, maxops=3),
+            dict(leaves=["b", "x"], lits=[], ctors=["And", "Not", "FluentExp"], maxar=2, maxops=4),
+            dict(leaves=["b", "c", "x"], lits=["f2.0"], ctors=["And", "Not", "Plus", "GE", "Equals", "FluentExp"], maxar=2, maxops=3),
+            dict(leaves=["b", "x", "y"], lits=["q1/2"], ctors=["Or", "Not", "Times", "Div", "GT", "Iff", "FluentExp"], maxar=2, maxops=3),
+            dict(leaves=["b", "x"], lits=["f2.0"], ctors=["And", "Or", "Plus", "FluentExp"], maxar=3, maxops=3),
             dict(leaves=["b", "c", "x"], lits=["i2", "f2.0", "q1/2"], ctors=ALL_CTORS, maxar=2, maxops=2),
         ]
     for c in cfgs:
@@ -405,7 +430,7 @@ def _dbg(ctx, what):
 
 def run(ctx):
     q = ctx.quick
-    stats = {"calls": 0, "raised": 0, "nontrivial": 0, "ctors": set(), "dead": set(), "failed": set()}
+    stats = {"calls": 0, "raised": 0, "nontrivial": 0, "ctors": set(), "dead": set(), "failed": set(), "features": set()}
     t1(ctx)
     _dbg(ctx, "T1 done")
     # ---- T2: TLC-enumerated histories replayed on fresh environments -----------------------
@@ -425,10 +450,11 @@ def run(ctx):
     else:
         plans = [
             plan("respell", "respell", 0, ALL_CTORS, ["b", "c", "x"], ["i2", "f2.0", "s2", "q4/2", "q1/2", "f0.5", "i0"], direct=True),
-            plan("seq3-all", "seq", 3, ALL_CTORS, ["b", "c", "x"], ["i2", "f2.0", "q1/2"], maxar=3),
+            plan("seq3-all", "seq", 3, ALL_CTORS, ["b", "c", "x"], ["i2", "f2.0", "q1/2"]),
+            plan("seq3-ternary", "seq", 3, ["And", "Or", "Plus", "Times", "Not", "FluentExp"], ["b", "x"], ["f2.0"], maxar=3),
             plan("seq4-A1", "seq", 4, ["And", "Not", "Plus", "GE", "Equals", "FluentExp"], ["b", "x"], ["f2.0"]),
-            plan("seq4-A2", "seq", 4, ["Or", "Not", "Iff", "Times", "GT", "LT", "FluentExp"], ["b", "x"], ["q1/2"]),
-            plan("seq2-direct", "seq", 2, ["And", "Or", "Not", "Iff", "Plus", "Times", "Div", "LE", "GE", "GT", "Equals"], ["b", "x"], ["i2", "f2.0", "q1/2"], direct=True),
+            plan("seq4-A2", "seq", 4, ["Or", "Not", "Iff", "Times", "GT", "FluentExp"], ["b", "x"], ["q1/2"]),
+            plan("seq2-direct", "seq", 2, ["And", "Not", "Iff", "Plus", "Div", "LE", "GT", "Equals"], ["b", "x"], ["i2", "f2.0", "q1/2"], direct=True),
         ]
     by = enumerate_histories(ctx, plans)
     _dbg(ctx, "enumerated %r" % {k: len(v) for k, v in by.items()})
@@ -440,7 +466,7 @@ def run(ctx):
             jobs.append(("replay", tid, h))
     nenum = len(jobs)
     # ---- T3: seeded long random histories over the whole alphabet ----------------------------
-    nr = 600 if q else 30000
+    nr = 600 if q else 10000
     jobs += [("random", 10000000 + i, (ctx.rng.getrandbits(48), ctx.rng.randint(8, 40))) for i in range(nr)]
     traces = run_jobs(ctx, jobs)
     _dbg(ctx, "replayed %d histories" % len(traces))
@@ -455,6 +481,10 @@ def run(ctx):
         raise MachineryError("vacuity: constructors never exercised: %s" % sorted(missing))
     if stats["raised"] == 0:
         raise MachineryError("vacuity: no ill-typed attempt was made")
+    nofeat = [f for f in REQUIRED_FEATURES if f not in stats["features"]]
+    if nofeat:
+        raise MachineryError("vacuity: call shapes never exercised: %s" % nofeat)
+    ctx.notes["features"] = sorted(stats["features"])
     ctx.cov["evaluations"] = stats["calls"]
     ctx.cov["distinct_nontrivial"] = stats["nontrivial"]
     ctx.cov["unspecified"] = len(stats["dead"] - stats["failed"])
@@ -475,3 +505,93 @@ def run(ctx):
         "the exception class of a rejected construction is recorded but not judged",
         "Div with a fluent-free divisor other than a non-zero constant is an unspecified zone (the type checker divides interval bounds)",
     ]
+
+
+# ----------------------------------------------------------------------------------------
+# ./check C16 --replay FILE   and   ./check C16 --selftest   (not part of the verdict run)
+# ----------------------------------------------------------------------------------------
+def replay(ctx, data):
+    """Re-run the call history of a replay file on the current tree and judge it again."""
+    t = data["data"]["trace"]
+    stats = {"dead": set(), "failed": set()}
+    traces = run_jobs(ctx, [("replay", t["id"], [{"k": o["k"], "a": o["a"]} for o in t["ops"]])])
+    judge(ctx, "replay", traces, stats)
+    for v in ctx.violations:
+        print("REPLAY %s: %s" % (v.sig, v.what))
+    print("replayed %d call(s): %d clause(s) fail" % (len(traces[0]["ops"]), len(ctx.violations)))
+    return 1 if ctx.violations else 0
+
+
+CORRUPTIONS = [
+    # (label, function mutating one trace in place, clause expected among the failures)
+    ("returned id of a repeated construction", lambda t: t["ops"][1]["r"].__setitem__(1, 99), "same-content-same-node"),
+    ("object ordinal of a repeated construction", lambda t: t["ops"][1]["r"].__setitem__(2, 7), "identical-object"),
+    ("operator of the returned node (GE kept as GE)", lambda t: t["ops"][0]["r"].__setitem__(3, "GE"), "result-content-normal-form"),
+    ("children of the returned node not mirrored", lambda t: t["ops"][0]["r"].__setitem__(4, list(reversed(t["ops"][0]["r"][4]))), "result-content-normal-form"),
+    ("payload of the promoted literal 2.0 kept as a Real", lambda t: t["ops"][0]["add"][1].__setitem__(3, "Fraction:2"), "table-extra-node"),
+    ("an entry disappears from the table", lambda t: t["ops"][1].__setitem__("del", [t["ops"][0]["add"][0]]), "table-keeps-entries"),
+    ("a new node reuses an id", lambda t: (t["ops"][2]["add"][0].__setitem__(0, 3), t["ops"][2]["r"].__setitem__(1, 3)), "new-ids-fresh"),
+    ("a node read again at the end has other children", lambda t: t["rr"][0].__setitem__(2, [4, 4]), "node-immutable"),
+    ("raw table size grows without a new entry", lambda t: t["ops"][1].__setitem__("n", t["ops"][1]["n"] + 1), "table-count"),
+    ("an ill-typed construction returns a node", lambda t: t["ops"][3].__setitem__("r", ["ok", 9, 5, "AND", [3, 4], "NoneType:None"]), "rejects-ill-typed"),
+    ("a well-typed construction raises", lambda t: (t["ops"][2].__setitem__("r", ["exc", 0, 0, "UPTypeError", [], ""]), t["ops"][2].__setitem__("add", []), t["ops"][2].__setitem__("n", t["ops"][1]["n"])), "accepts-well-typed"),
+]
+SELFTEST_HISTORY = [
+    {"k": "GE", "a": [["l", 0, "x"], ["v", 0, "f2.0"]]},
+    {"k": "LE", "a": [["v", 0, "q4/2"], ["l", 0, "x"]]},
+    {"k": "Not", "a": [["r", 1, ""]]},
+    {"k": "Or", "a": [["l", 0, "x"], ["r", 3, ""]]},
+]
+
+
+def selftest(ctx):
+    """(a) corrupting one recorded field makes the judge reject; (b) one source mutation in a scratch
+    copy of the package makes `./check C16` report a VIOLATION."""
+    import copy
+    import shutil
+    import subprocess
+    import tempfile
+
+    base = run_jobs(ctx, [("replay", 1, SELFTEST_HISTORY)])[0]
+    traces = [base]
+    for i, (label, fn, clause) in enumerate(CORRUPTIONS):
+        t = copy.deepcopy(base)
+        t["id"] = 100 + i
+        fn(t)
+        traces.append(t)
+    stats = {"dead": set(), "failed": set()}
+    judge(ctx, "selftest", traces, stats)
+    got = {}
+    for v in ctx.violations:
+        got.setdefault(v.data["trace"]["id"], set()).add(v.data["clause"])
+    rc = 0
+    # the unchanged trace may only show the known defect (its last call is an ill-typed attempt)
+    extra = got.get(1, set()) - {"reject-leaves-table-unchanged"}
+    print("unchanged trace: %s" % (sorted(got.get(1, set())) or "accepted"))
+    if extra:
+        rc = 1
+    for i, (label, fn, clause) in enumerate(CORRUPTIONS):
+        ok = clause in got.get(100 + i, set())
+        print("%-7s corruption '%s' -> %s (expected %s)" % ("caught" if ok else "MISSED", label, sorted(got.get(100 + i, set())), clause))
+        rc = rc or (0 if ok else 1)
+    # (b) source mutation in a scratch copy
+    import unified_planning
+
+    src = os.path.dirname(os.path.abspath(unified_planning.__file__))
+    tmp = tempfile.mkdtemp(prefix="c16-selftest-")
+    try:
+        shutil.copytree(src, os.path.join(tmp, "unified_planning"))
+        f = os.path.join(tmp, "unified_planning", "model", "expression.py")
+        text = open(f).read()
+        old = "return self.create_node(node_type=OperatorKind.LT, args=(right, left))"
+        if old not in text:
+            raise MachineryError("selftest: mutation anchor not found")
+        open(f, "w").write(text.replace(old, "return self.create_node(node_type=OperatorKind.LT, args=(left, right))"))
+        root = os.path.dirname(os.path.dirname(os.path.dirname(os.path.abspath(__file__))))
+        pr = subprocess.run([os.path.join(root, "check"), "C16"], env=dict(os.environ, VERIF_REPO=tmp), stdout=subprocess.PIPE, stderr=subprocess.STDOUT, text=True, timeout=1800)
+        hit = pr.returncode == 1 and "VIOLATION property=C16" in pr.stdout
+        print("%-7s source mutation 'GT not mirrored' -> exit %d" % ("caught" if hit else "MISSED", pr.returncode))
+        rc = rc or (0 if hit else 1)
+    finally:
+        shutil.rmtree(tmp, ignore_errors=True)
+    return rc
